@@ -58,6 +58,9 @@ structure Sig where
   variadic : Bool
   homog : Bool
   tvs : List (Option String)
+  /-- version of the opset object the callee was taken from (`opset17.Abs` → 17); only compared for the
+  default domain (`Converter._set_default_opset`) -/
+  ver : Nat := 0
 deriving DecidableEq, Repr, Inhabited
 
 inductive Expr
@@ -118,6 +121,8 @@ structure Func where
   /-- number of entries of the return annotation, if any (`check_num_outputs`) -/
   retCount : Option Nat
   body : List Stmt
+  /-- version of `default_opset` given to `script(...)` -/
+  opsetVer : Nat := 0
 deriving Repr, Inhabited
 
 /-! ## analysis.py -/
@@ -238,5 +243,43 @@ end
 
 /-- `analyzer.exposed_uses(stmts)`. -/
 def exposedUses (b : List Stmt) : VSet := exposedBlock b []
+
+/-! ## `Converter._set_default_opset`: one version of the default-domain opset per function -/
+
+mutual
+/-- Every `alias.Op(...)` call of the default domain (`""`) is taken from an opset of version `v`, at every
+depth of the expression. -/
+def exprOpsetOK (v : Nat) : Expr → Bool
+  | .call dom _ sig args _ => (dom != "" || sig.ver == v) && exprsOpsetOK v args
+  | .binop _ a b => exprOpsetOK v a && exprOpsetOK v b
+  | .unop _ a => exprOpsetOK v a
+  | .cmp _ a b => exprOpsetOK v a && exprOpsetOK v b
+  | _ => true
+def exprsOpsetOK (v : Nat) : List Expr → Bool
+  | [] => true
+  | e :: es => exprOpsetOK v e && exprsOpsetOK v es
+end
+
+mutual
+def stmtOpsetOK (v : Nat) : Stmt → Bool
+  | .assign _ e => exprOpsetOK v e
+  | .par _ es => exprsOpsetOK v es
+  | .tuple _ e => exprOpsetOK v e
+  | .badAssign _ e => exprOpsetOK v e
+  | .ite c t e => exprOpsetOK v c && blockOpsetOK v t && blockOpsetOK v e
+  | .for_ _ _ b body => exprOpsetOK v b && blockOpsetOK v body
+  | .while_ c body => exprOpsetOK v c && blockOpsetOK v body
+  | .brk c => exprOpsetOK v c
+  | .ret es _ => exprsOpsetOK v es
+  | .skip => true
+  | .unsupported => true
+def blockOpsetOK (v : Nat) : List Stmt → Bool
+  | [] => true
+  | s :: ss => stmtOpsetOK v s && blockOpsetOK v ss
+end
+
+/-- The whole function — top level, branches, loop bodies — uses one version of the default-domain opset:
+the one of `default_opset`. -/
+def opsetsOK (f : Func) : Bool := blockOpsetOK f.opsetVer f.body
 
 end OV.C01
